@@ -18,7 +18,7 @@ import (
 )
 
 func main() {
-	Main(map[string]Runner{"store": runStore, "reorg": runReorg, "crash": runCrash, "mem": runMem, "deep": runDeep})
+	Main(map[string]Runner{"store": runStore, "reorg": runReorg, "crash": runCrash, "mem": runMem, "deep": runDeep, "concurrent": runConcurrent})
 }
 
 // ---- commits / transactions
